@@ -116,9 +116,68 @@ func checkC18(c *Ctx) {
 			}
 		}
 	}
+	// ---- (b) global state
+	c.Rule("C18.globals", "GLOBALS: no library function writes a package-level variable (directly or by handing its address to a writing callee) outside package initialisation and outside a function run by sync.Once/OnceValue; sync.* and atomic typed globals are exempt. Positive control: the same matcher must find the initialisation-time writes", 1)
+	{
+		all := libFuncs(p)
+		sites, hits := globalWrites(p, eff, all, false)
+		ctl, _ := globalWrites(p, eff, all, true)
+		c.Instance("C18.globals", ctl)
+		_ = sites
+		reportFindings(c, p, "C18.globals", nil, hits, "")
+		c.Ob("C18.globals", "-", "-", "matcher-control(init-time writes found)", "-", ctl > 20, "the global-write matcher found no initialisation-time writes: the rule is vacuous")
+	}
+	// ---- lazily initialised globals (L17)
+	c.Rule("C18.lazy", "LAZY-INIT (L17): a global written only by the function handed to sync.Once.Do is read (or its address handed to a callee) only after a dominating once.Do in the reader, or after one in every caller up to the exported entry points", 16)
+	{
+		all := libFuncs(p)
+		inits, sites, hits := lazyInitViolations(p, eff, all)
+		c.Instance("C18.lazy", len(inits))
+		_ = sites
+		reportFindings(c, p, "C18.lazy", nil, hits, "")
+		c.Ob("C18.lazy", "-", "-", "once-initialised-globals-found", "-", len(inits) >= 16, "fewer lazily initialised globals recognised than confirmed by hand (8 twisted-Edwards curveParams + 8 mimcConstants)")
+	}
+	// ---- pooled objects
+	c.Rule("C18.pool", "POOL: an object obtained from a sync.Pool is completely redefined (whole store, clear, provably full copy, Reset/SetZero) before anything reads it; pooled big.Int scratch values are covered by C08.pool", 8)
+	{
+		sites, hits := pooledObjectsReadBeforeDefined(p, eff, libFuncs(p))
+		c.Instance("C18.pool", sites)
+		reportFindings(c, p, "C18.pool", nil, hits, "")
+		c.Ob("C18.pool", "-", "-", "pool-gets-analysed", "-", sites > 0, "no sync.Pool.Get site found")
+	}
+	// ---- parallel closures write disjoint ranges (L8)
+	c.Rule("C18.partition", "PARTITION (L8): every func(start,end) closure handed to a parallel helper anywhere in the library writes shared (captured) memory only at indices derived from its own range, under a guard start == k, through sync/atomic, or inside a forwarded range callee", 250)
+	{
+		nCl := 0
+		var bad []string
+		for _, fn := range libFuncs(p) {
+			if fn.Parent() != nil {
+				continue
+			}
+			n, b := partitionedWrites(p, fn)
+			nCl += n
+			for _, x := range b {
+				bad = append(bad, funcKey(fn)+": "+x)
+			}
+		}
+		c.Instance("C18.partition", nCl)
+		for _, b := range bad {
+			parts := strings.SplitN(b, ": ", 2)
+			c.Ob("C18.partition", "-", parts[0], "shared-write("+lastField(parts[1])+")", strings.Fields(parts[1])[0], false, b+": concurrent partitions write the same location (data race, result depends on the schedule)")
+		}
+		c.Ob("C18.partition", "-", "-", "closures-analysed", "-", nCl > 0, "no parallel closure found")
+	}
 	for t := range eff.Trusted {
 		c.Trust(t)
 	}
+}
+
+func lastField(s string) string {
+	f := strings.Fields(s)
+	if len(f) == 0 {
+		return s
+	}
+	return f[len(f)-1]
 }
 
 // reachesPointerAny: does a value of type t contain any pointer-like component?
